@@ -1,4 +1,4 @@
 SPECIFICATION Spec
 CONSTANTS
-  NLayers = 2
+  NLayers = 3
 CHECK_DEADLOCK FALSE
